@@ -1,4 +1,4 @@
-(* Stream reader: back-pressure.  For limit >= 1, in every reachable state an empty buffer implies
+(* Stream reader: back-pressure.  For EVERY limit, in every reachable state an empty buffer implies
    that the transport is reading, and a reader suspended in _wait has an empty buffer; hence a
    blocked reader is never left with the transport paused.  Also: the pause rule of feed_data /
    end_http_chunk_receiving and the resume rule of _read_nowait_chunk. *)
@@ -7,52 +7,55 @@ From Coq Require Import ZifyBool Sorted.
 Open Scope Z_scope.
 Ltac Zify.zify_post_hook ::= Z.to_euclidean_division_equations.
 
-(* water marks: what the proofs need of them *)
-Definition W (s : st) : Prop :=
-  1 <= low s /\ low s <= high s /\ 2 <= lowc s /\ lowc s <= highc s.
+(* water marks: what the proofs need of them.  The chunk-count marks are fine for every limit
+   (max(4, ...) and its half); the byte marks need limit >= 0 and are only used by the resume rule. *)
+Definition Wq (bytes_too : bool) (s : st) : Prop :=
+  (if bytes_too then 0 <= low s /\ low s <= high s else True) /\ 2 <= lowc s /\ lowc s <= highc s.
+Notation W := (Wq false).
 
 Definition NS (s : st) : Prop :=
   (buf s = [] -> paused s = false) /\ (wt s = Waiting -> buf s = []).
 
 Definition G (s : st) : Prop := Inv s /\ W s /\ NS s.
 
-Lemma W_same s s' : low s' = low s -> high s' = high s -> lowc s' = lowc s -> highc s' = highc s -> W s -> W s'.
-Proof. unfold W. intros -> -> -> ->. auto. Qed.
+Lemma W_same b s s' : low s' = low s -> high s' = high s -> lowc s' = lowc s -> highc s' = highc s -> Wq b s -> Wq b s'.
+Proof. unfold Wq. intros -> -> -> ->. auto. Qed.
 
-Lemma W_init limit : 1 <= limit -> W (init limit).
+Lemma W_init b limit : (b = true -> 0 <= limit) -> Wq b (init limit).
 Proof.
-  intros H. unfold W, init. cbn [low high lowc highc].
-  unfold init_low_water, init_high_water, init_low_water_chunks, init_high_water_chunks. lia.
+  intros H. unfold Wq, init. cbn [low high lowc highc].
+  unfold init_low_water, init_high_water, init_low_water_chunks, init_high_water_chunks.
+  destruct b; [specialize (H eq_refl)|]; lia.
 Qed.
 
 Lemma marks_wake_ok s : low (wake_ok s) = low s /\ high (wake_ok s) = high s /\ lowc (wake_ok s) = lowc s /\ highc (wake_ok s) = highc s.
 Proof. unfold wake_ok. destruct (wt s); auto. Qed.
 
-Lemma W_wake_ok s : W s -> W (wake_ok s).
+Lemma W_wake_ok b s : Wq b s -> Wq b (wake_ok s).
 Proof. destruct (marks_wake_ok s) as [A [B [C D]]]. apply W_same; assumption. Qed.
 
-Lemma W_feed d s : W s -> W (fst (feed_data d s)).
+Lemma W_feed b d s : Wq b s -> Wq b (fst (feed_data d s)).
 Proof.
   intros H. unfold feed_data. destruct (eof s); [exact H|]. destruct d; [exact H|]. cbn [fst].
-  match goal with |- W (if ?c then do_pause ?a else ?a) =>
-    assert (Ha : W a); [|destruct c; [apply (W_same a); try reflexivity|]; exact Ha] end.
-  apply W_wake_ok. apply (W_same s); try reflexivity. exact H.
+  match goal with |- Wq _ (if ?c then do_pause ?a else ?a) =>
+    assert (Ha : Wq b a); [|destruct c; [apply (W_same _ a); try reflexivity|]; exact Ha] end.
+  apply W_wake_ok. apply (W_same _ s); try reflexivity. exact H.
 Qed.
 
-Lemma W_end s : W s -> W (fst (end_chunk s)).
+Lemma W_end b s : Wq b s -> Wq b (fst (end_chunk s)).
 Proof.
   intros H. unfold end_chunk. destruct (splits s); [|exact H]. destruct (empty_chunk _ _); [exact H|].
   cbn [fst]. apply W_wake_ok.
-  match goal with |- W (if ?c then do_pause ?a else ?a) =>
-    assert (Ha : W a); [|destruct c; [apply (W_same a); try reflexivity|]; exact Ha] end.
-  apply (W_same s); try reflexivity. exact H.
+  match goal with |- Wq _ (if ?c then do_pause ?a else ?a) =>
+    assert (Ha : Wq b a); [|destruct c; [apply (W_same _ a); try reflexivity|]; exact Ha] end.
+  apply (W_same _ s); try reflexivity. exact H.
 Qed.
 
-Lemma W_marks n s : W s -> W (set_chunk_size n s).
+Lemma W_marks b n s : Wq b s -> Wq b (set_chunk_size n s).
 Proof.
   intros H. unfold set_chunk_size. destruct (chunk_size_raises n (low s)) eqn:E; [|exact H].
-  unfold chunk_size_raises in E. unfold W in *. cbn [low high lowc highc set_marks].
-  unfold chunk_size_low, chunk_size_high. lia.
+  unfold chunk_size_raises in E. unfold Wq in *. cbn [low high lowc highc set_marks].
+  unfold chunk_size_low, chunk_size_high. destruct b; lia.
 Qed.
 
 (* a strictly increasing list inside [c, t] has at most t - c + 1 elements *)
@@ -117,14 +120,14 @@ Proof.
   (* paused by the chunk count: more than highc >= 1 distinct positions in [cursor, total] need bytes *)
   all: intros E0; exfalso; pose proof (I_spl _ HI' _ eq_refl) as Hs; cbn [cursor total set_paused set_wt] in Hs;
     apply sorted_in_len in Hs; rewrite E0 in Hsz; cbn [concat] in Hsz; rewrite len_nil in Hsz;
-    unfold chunk_pause in Ec; destruct HW as [_ [_ [W3 W4]]]; lia.
+    unfold chunk_pause in Ec; destruct HW as [_ [W3 W4]]; lia.
 Qed.
 
 Lemma G_eof s : G s -> G (feed_eof s).
 Proof.
   intros [HI [HW [N1 N2]]]. split; [apply Inv_eof; exact HI|]. split.
   - unfold feed_eof. destruct (marks_wake_ok (set_eof s true)) as [A [B [C D]]].
-    apply (W_same s); cbn [low high lowc highc set_paused]; try assumption.
+    apply (W_same _ s); cbn [low high lowc highc set_paused]; try assumption.
   - unfold feed_eof. split; cbn [paused set_paused]; [reflexivity|].
     cbn [wt set_paused]. intros E. exfalso. exact (wake_ok_not_waiting _ E).
 Qed.
@@ -132,13 +135,13 @@ Qed.
 Lemma G_exc e s : G s -> G (set_exception e s).
 Proof.
   intros [HI [HW [N1 N2]]]. split; [apply Inv_exc; exact HI|].
-  unfold set_exception, wake_exc. cbn [wt set_exc]. destruct (wt s) eqn:Ew; (split; [apply (W_same s); try reflexivity; exact HW|]);
+  unfold set_exception, wake_exc. cbn [wt set_exc]. destruct (wt s) eqn:Ew; (split; [apply (W_same _ s); try reflexivity; exact HW|]);
     split; cbn [buf paused wt set_wt set_exc]; try exact N1; try discriminate; intros E; congruence.
 Qed.
 
 Lemma G_pend s v : G s -> G (set_pend s v).
 Proof.
-  intros [HI [HW HN]]. split; [apply Inv_pend; exact HI|]. split; [apply (W_same s); try reflexivity; exact HW|exact HN].
+  intros [HI [HW HN]]. split; [apply Inv_pend; exact HI|]. split; [apply (W_same _ s); try reflexivity; exact HW|exact HN].
 Qed.
 
 Lemma G_marks n s : G s -> G (set_chunk_size n s).
@@ -150,35 +153,35 @@ Qed.
 Lemma G_block s : G s -> wt s = NoTask -> buf s = [] -> eof s = false -> G (set_wt s Waiting).
 Proof.
   intros [HI [HW [N1 N2]]] _ Hb _. split; [apply Inv_wt; exact HI|].
-  split; [apply (W_same s); try reflexivity; exact HW|]. split; cbn [buf paused wt set_wt]; auto.
+  split; [apply (W_same _ s); try reflexivity; exact HW|]. split; cbn [buf paused wt set_wt]; auto.
 Qed.
 
 Lemma G_notask s : G s -> G (set_wt s NoTask).
 Proof.
   intros [HI [HW [N1 N2]]]. split; [apply Inv_wt; exact HI|].
-  split; [apply (W_same s); try reflexivity; exact HW|]. split; cbn [buf paused wt set_wt]; [exact N1|discriminate].
+  split; [apply (W_same _ s); try reflexivity; exact HW|]. split; cbn [buf paused wt set_wt]; [exact N1|discriminate].
 Qed.
 
 Lemma G_pop s l1 l2 : G s -> wt s = NoTask -> splits s = Some (l1 ++ l2) -> G (set_splits s (Some l2)).
 Proof.
   intros [HI [HW HN]] Hw E. split; [eapply Inv_pop; eassumption|].
-  split; [apply (W_same s); try reflexivity; exact HW|exact HN].
+  split; [apply (W_same _ s); try reflexivity; exact HW|exact HN].
 Qed.
 
 Lemma G_unread d s : G s -> wt s = NoTask -> G (unread d s).
 Proof.
   intros [HI [HW [N1 N2]]] Hw. split; [apply Inv_unread; assumption|].
   unfold unread. destruct d as [|x d]; [split; [exact HW|split; assumption]|].
-  split; [apply (W_same s); try reflexivity; exact HW|].
+  split; [apply (W_same _ s); try reflexivity; exact HW|].
   split; cbn [buf paused wt]; [discriminate|congruence].
 Qed.
 
 (* the heart of "no stuck pause": the read that empties the buffer passes the resume test *)
 Lemma empty_buffer_resumes s : Inv s -> W s -> buf s = [] -> resume_cond s = true.
 Proof.
-  intros HI [W1 [W2 [W3 W4]]] Hb. unfold resume_cond.
+  intros HI [_ [W3 W4]] Hb. unfold resume_cond. rewrite Hb.
+  apply andb_true_iff. split; [unfold resume_bytes; apply orb_true_r|].
   pose proof (I_size s HI) as Hsz. rewrite Hb in Hsz. cbn [concat] in Hsz. rewrite len_nil in Hsz.
-  apply andb_true_iff. split; [unfold resume_size; lia|].
   destruct (splits s) as [l|] eqn:El; [|reflexivity].
   pose proof (I_spl s HI l El) as Hs. apply sorted_in_len in Hs. pose proof (I_pos s HI).
   unfold resume_chunks. lia.
@@ -195,45 +198,42 @@ Proof.
   pose proof (Inv_consume n f r s HI Hb) as HI1.
   pose proof (consume_wt n f r s) as Hw1.
   destruct (marks_consume n f r s) as [A [B [C D]]].
-  assert (HW1 : W (fst (consume n f r s))) by (apply (W_same s); assumption).
+  assert (HW1 : W (fst (consume n f r s))) by (apply (W_same _ s); assumption).
   set (s1 := fst (consume n f r s)) in *.
   destruct (resume_cond s1) eqn:Er.
   - split; [apply (Inv_same s1); try reflexivity; exact HI1|].
-    split; [apply (W_same s1); try reflexivity; exact HW1|].
+    split; [apply (W_same _ s1); try reflexivity; exact HW1|].
     split; cbn [buf paused wt set_paused]; [reflexivity|]. intros E. congruence.
   - split; [exact HI1|]. split; [exact HW1|]. split.
     + intros E. rewrite (empty_buffer_resumes s1 HI1 HW1 E) in Er. discriminate.
     + intros E. congruence.
 Qed.
 
-Lemma G_init limit : 1 <= limit -> G (init limit).
+Lemma G_init limit : G (init limit).
 Proof.
-  intros H. split; [apply Inv_init|]. split; [apply W_init; exact H|]. split; cbn; [reflexivity|discriminate].
+  split; [apply Inv_init|]. split; [apply W_init; discriminate|]. split; cbn; [reflexivity|discriminate].
 Qed.
 
-Theorem G_run limit ops : 1 <= limit -> G (sst (fst (run ops (init_sys limit)))).
+Theorem G_run limit ops : G (sst (fst (run ops (init_sys limit)))).
 Proof.
-  intros H.
   apply (run_SysP G G_feed G_begin G_end G_eof G_exc G_pend G_consume G_marks G_block G_notask G_pop G_unread).
-  split; [apply G_init; exact H|reflexivity].
+  split; [apply G_init|reflexivity].
 Qed.
 
 (* ---- the statements used by Props/C08.v ------------------------------------------------------- *)
 
 Theorem not_stuck limit ops :
-  1 <= limit ->
   let y := fst (run ops (init_sys limit)) in
   wt (sst y) = Waiting -> buf (sst y) = [] /\ paused (sst y) = false.
 Proof.
-  intros H y Hw. destruct (G_run limit ops H) as [_ [_ [N1 N2]]]. fold y in N1, N2.
+  intros y Hw. destruct (G_run limit ops) as [_ [_ [N1 N2]]]. fold y in N1, N2.
   split; [auto|]. apply N1. auto.
 Qed.
 
 Theorem empty_buffer_reading limit ops :
-  1 <= limit ->
   let y := fst (run ops (init_sys limit)) in
   buf (sst y) = [] -> paused (sst y) = false.
-Proof. intros H y Hb. destruct (G_run limit ops H) as [_ [_ [N1 _]]]. apply N1. exact Hb. Qed.
+Proof. intros y Hb. destruct (G_run limit ops) as [_ [_ [N1 _]]]. apply N1. exact Hb. Qed.
 
 (* pause rule *)
 Theorem feed_pauses d s s' :
@@ -258,41 +258,35 @@ Proof.
     unfold wake_ok in *. cbn [wt] in *. destruct (wt s); cbn [splits highc set_wt] in *; inversion Hl; subst; lia.
 Qed.
 
-(* resume rule: after a consumption step the transport is paused only if the buffer is still at or
-   above the low-water mark, or too many chunk splits are outstanding *)
+(* resume rule: after a consumption step the transport is paused only if the buffer is non-empty and
+   still at or above the low-water mark, or too many chunk splits are outstanding *)
 Definition pause_justified (s : st) : Prop :=
-  paused s = true -> low s <= size s \/ exists l, splits s = Some l /\ lowc s <= len l.
+  paused s = true -> (low s <= size s /\ buf s <> []) \/ exists l, splits s = Some l /\ lowc s <= len l.
 
-Lemma marks_feed d s : let s' := fst (feed_data d s) in
-  low s' = low s /\ high s' = high s /\ lowc s' = lowc s /\ highc s' = highc s.
-Proof.
-  cbv zeta. unfold feed_data. destruct (eof s); [auto|]. destruct d; [auto|]. cbn [fst].
-  match goal with |- context [if ?c then _ else _] => destruct c end;
-    unfold wake_ok; cbn [wt]; destruct (wt s); cbn; auto.
-Qed.
-
-Lemma pj_apply_pitem it s : W s -> paused s = false -> pause_justified (apply_pitem it s) /\ W (apply_pitem it s).
+Lemma pj_apply_pitem it s : Wq true s -> paused s = false -> pause_justified (apply_pitem it s) /\ Wq true (apply_pitem it s).
 Proof.
   intros HW Hp. split.
   - destruct it as [d|]; cbn [apply_pitem].
     + unfold feed_data. destruct (eof s); [intros E; cbn in E; congruence|].
       destruct d as [|x d]; [intros E; cbn in E; congruence|]. cbn [fst].
       match goal with |- pause_justified (if ?c then _ else _) => destruct c eqn:Ec end.
-      * intros _. left. unfold feed_pause in Ec. apply Z.ltb_lt in Ec. destruct HW as [_ [W2 _]].
-        unfold wake_ok in *. cbn [wt] in *. destruct (wt s); cbn [low size high do_pause set_paused set_wt] in *; lia.
+      * intros _. left. unfold feed_pause in Ec. apply Z.ltb_lt in Ec. destruct HW as [[_ W2] _].
+        unfold wake_ok in *. cbn [wt] in *.
+        destruct (wt s); cbn [low size high buf do_pause set_paused set_wt] in *;
+          (split; [lia|destruct (buf s); discriminate]).
       * intros E. exfalso. unfold wake_ok in E. cbn [wt] in E. destruct (wt s); cbn in E; congruence.
     + destruct (splits s) as [l|] eqn:El; [|intros E; congruence]. unfold end_chunk. rewrite El.
       destruct (empty_chunk _ _); [intros E; cbn in E; congruence|]. cbn [fst highc].
       destruct (chunk_pause (len (l ++ [total s])) (highc s)) eqn:Ec.
       * intros _. right. exists (l ++ [total s]). unfold chunk_pause in Ec. apply Z.ltb_lt in Ec.
-        destruct HW as [_ [_ [_ W4]]].
+        destruct HW as [_ [_ W4]].
         unfold wake_ok, do_pause. cbn [wt set_paused]. destruct (wt s); cbn [splits lowc set_wt set_paused]; (split; [reflexivity|lia]).
       * intros E. exfalso. unfold wake_ok in E. cbn [wt] in E. destruct (wt s); cbn in E; congruence.
   - destruct it as [d|]; cbn [apply_pitem]; [apply W_feed; exact HW|].
     destruct (splits s); [apply W_end; exact HW|exact HW].
 Qed.
 
-Lemma pj_deliver items : forall s, W s -> pause_justified s -> pause_justified (deliver items s).
+Lemma pj_deliver items : forall s, Wq true s -> pause_justified s -> pause_justified (deliver items s).
 Proof.
   induction items as [|it rest IH]; intros s HW H; cbn [deliver].
   - intros E. apply H. exact E.
@@ -303,18 +297,43 @@ Proof.
 Qed.
 
 Theorem rnc_resume_rule n f r s :
-  Inv s -> W s -> buf s = f :: r -> pause_justified (fst (rnc n f r s)).
+  Inv s -> Wq true s -> buf s = f :: r -> pause_justified (fst (rnc n f r s)).
 Proof.
   intros HI HW Hb. unfold rnc.
   destruct (marks_consume n f r s) as [A [B [C D]]].
-  assert (HW1 : W (fst (consume n f r s))) by (apply (W_same s); assumption).
+  assert (HW1 : Wq true (fst (consume n f r s))) by (apply (W_same _ s); assumption).
   destruct (consume n f r s) as [s1 d]. cbn [fst] in *.
   destruct (resume_cond s1) eqn:Er.
   - unfold do_resume. cbv zeta. apply pj_deliver.
-    + apply (W_same s1); try reflexivity; exact HW1.
+    + apply (W_same _ s1); try reflexivity; exact HW1.
     + intros E. cbn in E. discriminate.
   - intros _. unfold resume_cond in Er. apply andb_false_iff in Er as [Er|Er].
-    + left. unfold resume_size in Er. lia.
+    + left. unfold resume_bytes in Er. apply orb_false_iff in Er as [E1 E2]. unfold resume_size in E1.
+      split; [lia|]. destruct (buf s1); [discriminate|discriminate].
     + right. destruct (splits s1) as [l|]; [|discriminate]. exists l. split; [reflexivity|].
       unfold resume_chunks in Er. lia.
+Qed.
+
+(* the byte marks stay ordered in every reachable state when limit >= 0 *)
+Theorem Wb_run limit ops : 0 <= limit -> Wq true (sst (fst (run ops (init_sys limit)))).
+Proof.
+  intros H.
+  apply (run_SysP (Wq true)).
+  - intros; apply W_feed; assumption.
+  - intros s Hs. unfold begin_chunk. destruct (splits s); [exact Hs|]. destruct (total s =? 0); [|exact Hs].
+    apply (W_same _ s); try reflexivity; exact Hs.
+  - intros; apply W_end; assumption.
+  - intros s Hs. unfold feed_eof. destruct (marks_wake_ok (set_eof s true)) as [A [B [C D]]].
+    apply (W_same _ s); cbn [low high lowc highc set_paused]; assumption.
+  - intros e s Hs. unfold set_exception, wake_exc. cbn [wt set_exc].
+    destruct (wt s); apply (W_same _ s); try reflexivity; exact Hs.
+  - intros s v Hs. apply (W_same _ s); try reflexivity; exact Hs.
+  - intros n f r s Hs _ _. cbv zeta. destruct (marks_consume n f r s) as [A [B [C D]]].
+    destruct (resume_cond _); apply (W_same _ s); cbn [low high lowc highc set_paused]; assumption.
+  - intros; apply W_marks; assumption.
+  - intros s Hs _ _ _. apply (W_same _ s); try reflexivity; exact Hs.
+  - intros s Hs. apply (W_same _ s); try reflexivity; exact Hs.
+  - intros s l1 l2 Hs _ _. apply (W_same _ s); try reflexivity; exact Hs.
+  - intros d s Hs _. unfold unread. destruct d; [exact Hs|]. apply (W_same _ s); try reflexivity; exact Hs.
+  - split; [apply W_init; intros _; exact H|reflexivity].
 Qed.
